@@ -23,7 +23,7 @@ def main(argv):
         ck.coq_gates(["Base", "C22", "C23"], THEOREMS, "EV.C23.Props")
     if bins:
         if ok or os.path.exists(os.path.join(COQ, "theories/C22/Corr.vo")):
-            correspondence(ck, bins["c22"], ck.scale(400, 6000), ck.scale(20, 40))
+            correspondence(ck, bins["c22"], ck.scale(400, 1600), ck.scale(20, 32))
         if ck.broken:
             ck.deep = True
         search(ck, bins["c22"], ck.scale(4000, 200000), ck.scale(24, 48), SIGS)
